@@ -1,6 +1,10 @@
-from . import sem
+from . import fixedchk, sem
 
 CHECKS = {
     "C01": sem.run,
     "C02": sem.run,
+    "C05": fixedchk.c05,
+    "C06": fixedchk.c06,
+    "C08": fixedchk.c08,
+    "C17": fixedchk.c17,
 }
